@@ -26,13 +26,13 @@ type KV struct {
 	V   *Node  `json:"v"`
 }
 
-func num(lit string) *Node   { return &Node{K: "num", Lit: lit} }
-func str(s string) *Node     { return &Node{K: "str", S: s} }
-func boolean(b bool) *Node   { return &Node{K: "bool", B: b} }
-func null() *Node            { return &Node{K: "null"} }
-func raw(s string) *Node     { return &Node{K: "raw", S: s} }
-func arr(es ...*Node) *Node  { return &Node{K: "arr", A: es} }
-func obj(kvs ...KV) *Node    { return &Node{K: "obj", O: kvs} }
+func num(lit string) *Node    { return &Node{K: "num", Lit: lit} }
+func str(s string) *Node      { return &Node{K: "str", S: s} }
+func boolean(b bool) *Node    { return &Node{K: "bool", B: b} }
+func null() *Node             { return &Node{K: "null"} }
+func raw(s string) *Node      { return &Node{K: "raw", S: s} }
+func arr(es ...*Node) *Node   { return &Node{K: "arr", A: es} }
+func obj(kvs ...KV) *Node     { return &Node{K: "obj", O: kvs} }
 func kv(k string, v *Node) KV { return KV{Key: k, V: v} }
 func fkv(k string, v *Node) KV {
 	return KV{Key: k, F: true, V: v}
